@@ -605,8 +605,12 @@ func (api *DatabaseAPI) handleInsert(opID []byte, key string, data []byte) {
 		return
 	}
 
+	// The record may be shared with other requests (eg. the hashmap storage
+	// hands out the stored object itself): only change it while holding its lock.
+	r.Lock()
 	acc := r.GetAccessor(r)
 	if acc == nil {
+		r.Unlock()
 		api.send(opID, dbMsgTypeError, "record does not support inserting values", nil)
 		return
 	}
@@ -631,6 +635,7 @@ func (api *DatabaseAPI) handleInsert(opID []byte, key string, data []byte) {
 		insertError = acc.Set(key.String(), value.Value())
 		return insertError == nil
 	})
+	r.Unlock()
 
 	if insertError != nil {
 		api.send(opID, dbMsgTypeError, insertError.Error(), nil)
